@@ -124,12 +124,15 @@ def _run_einsum(eq, arrays, mode):
         return cc.einsum(eq, *arrays)
 
 
-def _run_tensordot(arrays, axes, mode, np_int=False):
+def _run_tensordot(arrays, axes, mode, np_int=False, default=False):
     cc = _cc()
     if np_int:
         axes = np.int64(axes)
     with warnings.catch_warnings():
         warnings.simplefilter("ignore")
+        if default:
+            assert axes == 2
+            return cc.tensordot(arrays[0], arrays[1])
         if mode == "noeinsum":
             return _unw(cc.tensordot(NEArray(arrays[0]), NEArray(arrays[1]), axes))
         return cc.tensordot(arrays[0], arrays[1], axes)
@@ -181,7 +184,7 @@ def _check_tensordot_case(shape_a, shape_b, axes, modes):
     for mode in modes:
         np_int = mode.endswith("+npint")
         try:
-            got = _run_tensordot(arrays, axes, mode.split("+")[0], np_int=np_int)
+            got = _run_tensordot(arrays, axes, mode.split("+")[0], np_int=np_int, default=mode.endswith("+default"))
         except Exception as e:  # noqa: BLE001
             fails.append((mode, f"raised {type(e).__name__}", str(e)[:200]))
             continue
@@ -268,7 +271,7 @@ def _work_einsum(item):
             case = {"kind": "einsum", "eq": eq, "shapes": [list(s) for s in shapes], "mode": mode,
                     "implicit": "implicit" in kind}
             viols.append((f"C11 cotengra.contract.einsum('{eq}') shapes {shapes} [{mode}]: {kind}", case, detail))
-        if len(samples) < 1 and nontrivial:
+        if len(samples) < 1 and nontrivial and max([1] + [d for sh in shapes for d in sh]) > 1:
             samples.append({"eq": eq, "shapes": [list(s) for s in shapes], "plan": feats})
     ci1 = cc._parse_einsum_single.cache_info()
     fired["_parse_einsum_single evaluations"] = (ci1.hits + ci1.misses) - (ci0.hits + ci0.misses)
@@ -327,7 +330,7 @@ def _work_tensordot(item):
         modes = ("noeinsum", "numpy")
         if isinstance(axes, int):
             # the same int also as a numpy integer scalar
-            modes = modes + ("numpy+npint",)
+            modes = modes + ("numpy+npint",) + (("numpy+default",) if axes == 2 else ())
         fails = _check_tensordot_case(sa, sb, axes, modes)
         n += len(modes)
         keys.append(f"T|{sa}|{sb}|{axes}")
@@ -342,10 +345,7 @@ def _work_tensordot(item):
         for mode, kind, detail in fails:
             case = {"kind": "tensordot", "shape_a": list(sa), "shape_b": list(sb),
                     "axes": axes if isinstance(axes, int) else [list(axes[0]), list(axes[1])], "mode": mode}
-            if isinstance(axes, int) and kind == "raised TypeError" and "subscriptable" in (detail or ""):
-                sig = "C11 cotengra.contract.tensordot(a, b, axes=<python int>): raised TypeError ('int' object is not subscriptable)"
-            else:
-                sig = f"C11 cotengra.contract.tensordot shapes {sa},{sb} axes={axes!r} [{mode}]: {kind}"
+            sig = f"C11 cotengra.contract.tensordot shapes {sa},{sb} axes={axes!r} [{mode}]: {kind}"
             viols.append((sig, case, detail))
         if not samples:
             samples.append({"tensordot": [list(sa), list(sb)], "axes": repr(axes)})
@@ -406,7 +406,7 @@ def run_bounded(rep: Report, tier: str) -> None:
         if state["timed_out"]:
             rep.scope(name, n, False, bound + " [stopped at the time budget]")
         else:
-            rep.scope(name, n, exhaustive, bound)
+            rep.scope(name, n, exhaustive, bound)  # cases = executions (cases x array modes)
 
     # ---- single operand -------------------------------------------------
     k1, r1 = (3, 3) if quick else (5, 4)
@@ -425,6 +425,9 @@ def run_bounded(rep: Report, tier: str) -> None:
          "<= 3 symbols, operand rank <= 3, every output sequence of distinct symbols, every size assignment from {1,2,3}",
          chunk=8)
     if quick:
+        items = [(i, o, 6, rng.randrange(2**30), False) for i, o in scope.networks(2, 4, 3)]
+        part("einsum 2 operands: Net(2,4,3) x 6 sampled size assignments", _work_einsum, items, False,
+             "all 8828 canonical equations over <= 4 symbols rank <= 3; 6 of the <= 81 size assignments from {1,2,3} each", chunk=8)
         samp = _sample_two_operand(5, 4, 500, rng)
         items = [(i, o, 6, rng.randrange(2**30), False) for i, o in samp]
         part("einsum 2 operands: sample of Net(2,5,4)", _work_einsum, items, False,
@@ -442,12 +445,13 @@ def run_bounded(rep: Report, tier: str) -> None:
     mr = 3 if quick else 4
     specs = tensordot_specs(mr)
     full_upto = 4 if quick else 5
-    limit = 32 if quick else 96
+    limit = None if quick else 128
     items = [(ra, rb, ax, full_upto, limit, rng.randrange(2**30)) for ra, rb, ax in specs]
-    part(f"tensordot: ranks <= {mr}, every axes spec", _work_tensordot, items, False,
-         f"every int axes and every pair of equal-length sequences of distinct axes ({len(specs)} specs); matching dims: "
-         f"all assignments from {{1,2,3}} when <= {full_upto} free dims else from {{1,2}}, at most {limit} (seeded sample) per spec",
-         chunk=4)
+    part(f"tensordot: ranks <= {mr}, every axes spec", _work_tensordot, items, limit is None,
+         f"every int axes (python int, numpy.int64, and the default axes=2) and every pair of equal-length sequences of distinct axes ({len(specs)} specs); "
+         f"matching dims: all assignments from {{1,2,3}} when <= {full_upto} free dims else all from {{1,2}}"
+         + ("" if limit is None else f", at most {limit} (seeded sample) per spec"),
+         chunk=2)
 
     # ---- report ------------------------------------------------------------
     viols = sorted(state["viols"], key=lambda v: (len(v[0]), v[0]))
@@ -455,7 +459,7 @@ def run_bounded(rep: Report, tier: str) -> None:
     nrep = 0
     for sig, case, detail in viols:
         # prefer distinct (equation/axes, mode) classes: one per equation
-        cls = (case.get("eq") or (sig if "<python int>" in sig else str(case.get("axes"))), case["kind"])
+        cls = (case.get("eq") or str(case.get("axes")), case["kind"])
         if cls in seen_kind:
             continue
         seen_kind.add(cls)
